@@ -30,10 +30,10 @@ RT = 1e-12
 
 UNITS_BY_KIND = {
     'length': (ut.L_, ['angstrom', 'nm', 'm', 'pm', 'cm']),
-    'velocity': ((1, 0, -1, 0, 0), ['m/s', 'angstrom/ps', 'nm/fs', 'angstrom / fs', 'nm*angstrom/ps/nm']),
-    'force': (ut.FORCE, ['eV/angstrom', 'nN', 'N', 'kcal/(mol*angstrom)', 'kcal/mol/angstrom', 'eV/nm^2*angstrom', 'kg*m/s/s']),
+    'velocity': ((1, 0, -1, 0, 0), ['m/s', 'angstrom/ps', 'nm/fs', 'angstrom / fs', 'nm*angstrom/ps/nm', 'angstrom*ps^-1', 'm*s^-1']),
+    'force': (ut.FORCE, ['eV/angstrom', 'nN', 'N', 'kcal/(mol*angstrom)', 'kcal/mol/angstrom', 'eV/nm^2*angstrom', 'kg*m/s/s', 'eV*angstrom^-1', 'kg*m*s^-2']),
     'energy': (ut.ENERGY, ['eV', 'J', 'meV', 'kcal/mol', 'kJ/mol', 'GPa*angstrom^3', 'eV/angstrom*nm']),
-    'pressure': (ut.PRESSURE, ['GPa', 'bar', 'eV/angstrom^3', 'Pa', 'atm', 'eV/angstrom/angstrom^2', 'N/m/m', 'kg/m/s^2']),
+    'pressure': (ut.PRESSURE, ['GPa', 'bar', 'eV/angstrom^3', 'Pa', 'atm', 'eV/angstrom/angstrom^2', 'N/m/m', 'kg/m/s^2', 'eV*angstrom^-3', 'N*m^-2', 'kg*m^(-1)*s^-2']),
     'charge': (ut.Q_, ['e', 'C', 'mC']),
     'mass': (ut.M_, ['amu', 'g/mol', 'kg']),
     'time': (ut.T_, ['ps', 'fs', 's']),
@@ -91,7 +91,7 @@ class ModelEngine(Engine):
     name = 'epochs_c10'
     max_ops = 30
     expected_probes = ['read_in_other_epoch', 'xml_read', 'json_read', 'dm_read', 'path_read', 'stream_read', 'short_read_stream',
-                       'scaled_property', 'symbols_with_gap', 'masses_partly_none', 'one_atom_system', 'length1_array',
+                       'scaled_property', 'symbols_with_gap', 'masses_partly_none', 'units_given_without_names', 'format_name_not_lower_case', 'mass_zero', 'one_atom_system', 'length1_array',
                        'rank3_value', 'rewrite_chain', 'elastic_normalised', 'unseeded_epoch', 'string_property', 'error_field',
                        'noncontiguous_input', 'box_read_into_used_object', 'io_error_read_raised', 'second_write_same_arguments', 'single_property_record', 'integer_typed_positions', 'nonfinite_values_round_tripped', 'same_object_dumped_again_after_edit', 'scribble_on_normalized_copy']
     rule = ('Each run is a history of up to 30 operations over a set of up to 10 serialised artifacts: build a value-with-units / '
@@ -255,7 +255,7 @@ class ModelEngine(Engine):
             units['pos'] = pos_unit
             units['atype'] = None
             op.update(n=n, V=V * 1e-10, origin=o * 1e-10, atype=atype, pos=pos, props=props, units=units,
-                      subset=r.choice([False, False, False, False, True, 'one']), by=r.choice(['prop_unit', 'lists', 'default']),
+                      subset=r.choice([False, False, False, False, True, 'one']), by=r.choice(['prop_unit', 'lists', 'default', 'prop_unit', 'lists', 'default', 'unit_only']),
                       int_pos=r.random() < 0.15, redump=r.random() < 0.4)
             if what == 'system':
                 nsym = r.choice([0, ntypes, ntypes, ntypes + 1])
@@ -266,8 +266,13 @@ class ModelEngine(Engine):
                     masses = [round(r.uniform(1, 200), 4) if (mas == 'full' or r.random() < 0.5) else None for _ in range(max(nsym, ntypes))]
                     if all(x is None for x in masses):
                         masses[0] = 55.845
+                    if r.random() < 0.15:
+                        # massless placeholder types (shell particles, ghost sites): zero is a mass like any other
+                        masses = [0.0 if (x is not None and r.random() < 0.7) else x for x in masses]
+                        if not any(x == 0.0 for x in masses if x is not None):
+                            masses[0] = 0.0
                 op.update(symbols=syms, masses=masses, pbc=[r.random() < 0.6 for _ in range(3)], box_unit=r.choice([None, 'angstrom', 'nm', 'm']),
-                          via=r.choice(['model', 'dump']))
+                          via=r.choice(['model', 'dump']), fmt_case=r.choice(['lower', 'lower', 'lower', 'upper', 'title']))
         else:
             # a positive-definite stiffness of a given crystal system, SI (Pa)
             system = r.choice(['triclinic', 'cubic', 'hexagonal', 'orthorhombic', 'isotropic-as-cubic', 'rhombohedral', 'tetragonal'])
@@ -544,6 +549,14 @@ class ModelEngine(Engine):
             eff = {nm: None for nm in ['atype', 'pos'] + sorted(arrs)}
             eff['pos'] = 'angstrom'
             names = ['atype', 'pos'] + sorted(arrs)
+        elif by == 'unit_only':
+            # a unit for every property the object holds, in the object's own order, and no list of names
+            names = list(atoms.prop())
+            kw = {'unit': [units.get(nm) for nm in names]}
+            eff = {nm: units.get(nm) for nm in names}
+            if eff.get('pos') is None:
+                eff['pos'] = 'angstrom'
+            ctx.probe('units_given_without_names')
         elif by == 'lists':
             kw = {'prop_name': list(names), 'unit': [units.get(nm) for nm in names]}
             eff = {nm: units.get(nm) for nm in names}
@@ -581,6 +594,10 @@ class ModelEngine(Engine):
             kw_before = _copy.deepcopy(kw)
             if op['via'] == 'dump' and op['enc'] != 'dm':
                 fmt = op['enc']
+                fc = op.get('fmt_case', 'lower')
+                if fc != 'lower':
+                    fmt = fmt.upper() if fc == 'upper' else fmt.title()        # format='XML', 'Json': accepted in any case
+                    ctx.probe('format_name_not_lower_case')
                 ikw = {} if op['indent'] is None else {'indent': op['indent']}
                 if op['dest'] == 'return':
                     text = ctx.must('C10.J4', system.dump, 'system_model', format=fmt, klass='dump/system_model/' + fmt, **ikw, **kw)
@@ -596,7 +613,7 @@ class ModelEngine(Engine):
                         ctx.probe('same_object_dumped_again_after_edit')
                 elif op['dest'] == 'path':
                     st['nfile'] += 1
-                    p = os.path.join(st['scratch'], 'd%d.%s' % (st['nfile'], fmt))
+                    p = os.path.join(st['scratch'], 'd%d.%s' % (st['nfile'], op['enc']))
                     ctx.must('C10.J4', system.dump, 'system_model', f=p, klass='dump/system_model/path', **ikw, **kw)
                     with open(p, encoding='UTF-8') as f:
                         text = f.read()
@@ -605,7 +622,7 @@ class ModelEngine(Engine):
                     ctx.must('C10.J4', system.dump, 'system_model', f=buf, format=fmt, klass='dump/system_model/stream', **ikw, **kw)
                     text = buf.getvalue()
                 m = None
-                payload = {'enc': fmt, 'text': text}
+                payload = {'enc': op['enc'], 'text': text}
             else:
                 m = ctx.must('C10.J1', system.model, klass='System.model/' + by, **kw)
             nt = max(op['atype'])
@@ -620,6 +637,8 @@ class ModelEngine(Engine):
                 t.fields['masses'] = {'raw': mm}
                 if any(x is None for x in mm):
                     ctx.probe('masses_partly_none')
+                if any(x == 0.0 for x in mm if x is not None):
+                    ctx.probe('mass_zero')
             else:
                 t.fields['masses'] = {'raw': None}
             boxtag = op['box_unit'] is not None
